@@ -833,7 +833,13 @@ func (b *BlockWise[C]) processReceivedMessage(w *responsewriter.ResponseWriter[C
 		}
 	}
 
+	// Tokens are scoped per direction (RFC 7252 5.3.1): a request of the peer that is being received block by
+	// block may carry the token bytes of a request of ours whose response is being received block by block.
+	// The two must not share one buffer: requests are kept under a key no token can equal (it is longer).
 	tokenStr := string(token)
+	if blockType == message.Block1 {
+		tokenStr = "request: " + tokenStr
+	}
 	var cachedReceivedMessageGuard *messageGuard
 	if e := b.receivingMessagesCache.Load(tokenStr); e != nil {
 		cachedReceivedMessageGuard = e.Data()
